@@ -633,6 +633,63 @@ def slerp_lemma(n, is_quat):
     return res
 
 
+def _pi_like(v, target, width):
+    """is the constant v the correctly rounded `target` of that float width (within 4 ulp)?"""
+    eps = 2.0 ** -23 if width == 4 else 2.0 ** -52
+    return abs(v - target) <= 4 * eps * abs(target)
+
+
+def antiparallel_fallback(ls, views, width):
+    """vector slerp between anti-parallel operands: r = R(axis, pi s) a (L / |a|) with axis a unit vector orthogonal to a:
+    |r| = L, a.r = |a| L cos(pi s) (so the turn is s times the half turn, about an axis orthogonal to self), the trigonometric argument is
+    (pi / 2) s with pi correctly rounded for the scalar type"""
+    trig = []
+    seen = set()
+    for l in ls:
+        _subterms(l, 'sin', trig, seen)
+    seen = set()
+    for l in ls:
+        _subterms(l, 'cos', trig, seen)
+    targs = set(t.args[0] for t in trig)
+    if len(targs) != 1:
+        return 'the half-turn fallback does not use the sine and cosine of one angle'
+    T = list(targs)[0]
+    alg = nf.Algebra()
+    alg.budget = 600000
+    S = Spec(alg)
+    try:
+        for l in ls:
+            alg.nf(l)
+        for v_, info in list(alg.var_info.items()):
+            if info[0] == 'fn' and info[1] in ('copysign', 'signum'):
+                alg.rel[v_] = Poly.const(1)
+        alg.memo.clear()
+        g = [alg.nf(l) for l in ls]
+        a = [alg.nf(x) for x in views[0].lanes]
+        b = [alg.nf(x) for x in views[1].lanes]
+        s_ = alg.nf(views[2].lanes[0])
+        h = alg.nf(T)
+        # h = c * s with c = pi / 2
+        if h[1] != ONE or len(h[0].t) != 1 or s_[1] != ONE or len(s_[0].t) != 1:
+            return 'the half-turn angle is not a constant multiple of s'
+        (mh, ch), = h[0].t.items()
+        (ms, cs), = s_[0].t.items()
+        if mh != ms or not _pi_like(float(ch / cs), math.pi / 2, width):
+            return 'the half-turn fallback turns by %.9g s instead of pi s (pi of the scalar type)' % (2 * float(ch / cs) if mh == ms else float('nan'))
+        sh, ch_ = alg.sin_r(h), alg.cos_r(h)
+        la, lb = alg.sqrt_r(S.dot(a, a)), alg.sqrt_r(S.dot(b, b))
+        L = S.add(la, S.mul(s_, S.sub(lb, la)))
+        zero = lambda x: alg.reduce(x[0]).is_zero()
+        if not zero(S.sub(S.dot(g, g), S.mul(L, L))):
+            return 'the anti-parallel fallback branch does not have the interpolated length |a| + s (|b| - |a|)'
+        cos_full = S.sub(S.mul(ch_, ch_), S.mul(sh, sh))
+        if not zero(S.sub(S.dot(a, g), S.mul(la, L, cos_full))):
+            return 'the anti-parallel fallback does not turn self by pi s about an axis orthogonal to self'
+    except ValueError:
+        return None
+    return None
+
+
 def check_slerp(ctx, cfg, F, done):
     """slerp(a, b, s): with b' = -b when a.b < 0 (quaternions: shorter arc), c = |a.b| (quaternions) or a.b / (|a||b|) (vectors) and theta = acos_approx(c),
     the spherical branch returns (sin((1-s) theta) a^ + sin(s theta) b^) / sin(theta) (vectors: a^ = a L/|a|, b^ = b L/|b|, L = |a| + s(|b| - |a|));
@@ -668,6 +725,7 @@ def check_slerp(ctx, cfg, F, done):
         n_sph = 0
         n_fallback = 0
         bad = None
+        width = 4 if (tname in ('Quat',) or FLOAT_TYPES.get(tname) == 'f32') else 8
         for asg, ls in cases:
             alg = nf.Algebra()
             alg.budget = 400000
@@ -680,41 +738,9 @@ def check_slerp(ctx, cfg, F, done):
             except ValueError as e:
                 bad = 'not analysable: %s' % e
                 break
-            # which branch is this?  it is spherical iff the result mentions the arccos symbol
-            txt = ''.join(tm.show(l, 0, 60) for l in ls)
-            if 'acos_approx' not in txt:
-                if not is_quat and ('sin(' in txt or 'cos(' in txt):
-                    # anti-parallel fallback of the vector form: self rotated about some orthogonal axis and rescaled - its length must be
-                    # the interpolated length |a| + s (|b| - |a|)
-                    alg2 = nf.Algebra()
-                    alg2.budget = 600000
-                    S2 = Spec(alg2)
-                    try:
-                        for l in ls:
-                            alg2.nf(l)
-                        for v_, info in list(alg2.var_info.items()):
-                            if info[0] == 'fn' and info[1] in ('copysign', 'signum'):
-                                alg2.rel[v_] = Poly.const(1)
-                        alg2.memo.clear()
-                        g2 = [alg2.nf(l) for l in ls]
-                        a2 = [alg2.nf(x) for x in views[0].lanes]
-                        b2 = [alg2.nf(x) for x in views[1].lanes]
-                        s2 = alg2.nf(views[2].lanes[0])
-                        la2, lb2 = alg2.sqrt_r(S2.dot(a2, a2)), alg2.sqrt_r(S2.dot(b2, b2))
-                        L2 = S2.add(la2, S2.mul(s2, S2.sub(lb2, la2)))
-                        if not alg2.reduce(S2.sub(S2.dot(g2, g2), S2.mul(L2, L2))[0]).is_zero():
-                            bad = 'the anti-parallel fallback branch does not have the interpolated length |a| + s (|b| - |a|)'
-                            break
-                        n_fallback += 1
-                    except ValueError:
-                        pass
-                continue          # lerp / degenerate branches: R-ARC, R-ENDPOINT and C20 R-POST
             dot = S.dot(a, b)
-            ok = False
-            tried = []
-            # the branch conditions of this case: which arc (sign of a.b), and how close to parallel the lerp fallback starts
-            want_sign = None
-            zero_k = tm.fconst(0.0, 4)
+            # --- what the branch conditions of this case say: is a.b negative?  is the pair beyond the near-parallel threshold?
+            neg = near = None
             for c_, v_ in asg.items():
                 if c_.op not in ('flt', 'fle') or len(c_.args) != 2:
                     continue
@@ -723,23 +749,75 @@ def check_slerp(ctx, cfg, F, done):
                 k = kx if kx is not None else ky
                 if k is None:
                     continue
-                if k == 0.0 and is_quat:
-                    other = y_ if kx is not None else x_
-                    try:
-                        d_ = alg.nf(other)
-                    except ValueError:
-                        continue
-                    if S.eq(d_, dot) or S.eq(d_, S.neg(dot)):
-                        sg = 1 if S.eq(d_, dot) else -1
+                other = y_ if kx is not None else x_
+                if k == 0.0:
+                    sg = None
+                    if is_quat:
+                        try:
+                            d_ = alg.nf(other)
+                            sg = 1 if S.eq(d_, dot) else (-1 if S.eq(d_, S.neg(dot)) else None)
+                        except ValueError:
+                            sg = None
+                    else:
+                        sg = 1        # the vector form tests its normalised dot product
+                    if sg is not None:
                         reads_neg = (ky is not None) if sg == 1 else (kx is not None)      # the condition reads "a.b < 0"
-                        is_neg = v_ if reads_neg else not v_
-                        want_sign = -1 if is_neg else 1
-                elif 0.0 < abs(k) < 1.0 + 1e-9 and abs(k) > 0.25:
+                        neg = v_ if reads_neg else not v_
+                elif 0.25 < abs(k) < 1.0 + 1e-9:
                     if 1.0 - abs(k) > 1e-6:
                         bad = 'the near-parallel fallback starts at |cos angle| > %r: arcs of up to %.3g rad are interpolated linearly instead of spherically' % (k, math.acos(min(1.0, abs(k))))
+                    reads_gt = kx is not None           # flt(k, X): X > k
+                    near = v_ if reads_gt else not v_
             if bad:
                 break
-            for sign in ((want_sign,) if (is_quat and want_sign is not None) else (1, -1)):
+            txt = ''.join(tm.show(l, 0, 60) for l in ls)
+            spherical = 'acos_approx' in txt
+            trig = ('sin(' in txt or 'cos(' in txt)
+            if spherical and near:
+                bad = 'the spherical formula is used on the near-parallel side of the threshold (sin t ~ 0 in the denominator) and the fallback on the regular side: the comparison is reversed'
+                break
+            if not spherical:
+                if near is False:
+                    bad = 'a fallback branch is taken although the operands are not near-parallel (comparison reversed)'
+                    break
+                if is_quat:
+                    # near-parallel quaternions: the normalised lerp towards +-end
+                    sgn = S.c(-1) if neg else S.c(1)
+                    un = [S.add(x, S.mul(s_, S.sub(S.mul(y, sgn), x))) for x, y in zip(a, b)]
+                    inv = S.div(S.c(1), alg.sqrt_r(S.dot(un, un)))
+                    try:
+                        if not all(S.eq(g, S.mul(u, inv)) for g, u in zip(got, un)):
+                            bad = 'the near-parallel branch is not normalize(self + s (+-end - self)) with the sign of the arc'
+                            break
+                    except ValueError:
+                        pass
+                    n_fallback += 1
+                    continue
+                if trig:
+                    if neg is False:
+                        bad = 'the half-turn fallback is taken for operands pointing the same way (a.b >= 0): comparison reversed'
+                        break
+                    # anti-parallel vectors: self turned by pi s about an axis orthogonal to it, rescaled to the interpolated length
+                    why = antiparallel_fallback(ls, views, width)
+                    if why:
+                        bad = why
+                        break
+                    n_fallback += 1
+                    continue
+                if neg is True:
+                    bad = 'the linear fallback is taken for anti-parallel operands (a.b < 0): comparison reversed'
+                    break
+                un = [S.add(x, S.mul(s_, S.sub(y, x))) for x, y in zip(a, b)]
+                try:
+                    if not all(S.eq(g, u) for g, u in zip(got, un)):
+                        bad = 'the near-parallel branch is not self + s (rhs - self)'
+                        break
+                except ValueError:
+                    pass
+                n_fallback += 1
+                continue
+            ok = False
+            for sign in (((-1 if neg else 1),) if (is_quat and neg is not None) else (1, -1)):
                 if is_quat:
                     c = dot if sign == 1 else S.neg(dot)
                     bb = b if sign == 1 else [S.neg(x) for x in b]
@@ -769,6 +847,8 @@ def check_slerp(ctx, cfg, F, done):
             else:
                 bad = 'a spherical branch is not (sin((1-s) t) a + sin(s t) b) / sin(t) with t = acos_approx(cos of the angle): lane 0 is %s' % got[0][0].show(alg.name, 6)
                 break
+        if bad is None and n_fallback == 0:
+            bad = 'no near-parallel fallback branch found'
         if bad is None and n_sph == 0:
             bad = 'no spherical branch found'
         done('R-SLERP', name, bad, it)
